@@ -3,18 +3,24 @@ package authenticode
 // Bounded stand-in for property C01 (NOT a proof, labelled bounded in the evidence):
 // (*multi).ReadAt and newMultiReaderAt against the specification "a positional reader over the
 // concatenation of the parts", exhaustively for every list of up to 4 parts of 0..3 bytes each,
-// every offset in [-1, total+1] and every buffer length in [0, total+2].
+// every offset in [-1, total+1] and every buffer length in [0, total+2]
+// (thorough tier: up to 5 parts of 0..4 bytes).
 //
 // Injected into the package with `go test -overlay`; nothing is written into the repository.
 
 import (
 	"bytes"
 	"fmt"
+	"os"
 	"testing"
 )
 
 func TestVfyBoundedMultiReadAt(t *testing.T) {
 	cases := 0
+	maxParts, maxSize := 4, 3
+	if os.Getenv("VFY_BOUND_TIER") == "thorough" {
+		maxParts, maxSize = 5, 4 // thorough tier: 5 parts of up to 4 bytes
+	}
 	var sizes []int
 	var rec func(depth int)
 	check := func() {
@@ -91,10 +97,10 @@ func TestVfyBoundedMultiReadAt(t *testing.T) {
 	}
 	rec = func(depth int) {
 		check()
-		if depth == 4 {
+		if depth == maxParts {
 			return
 		}
-		for n := 0; n <= 3; n++ {
+		for n := 0; n <= maxSize; n++ {
 			sizes = append(sizes, n)
 			rec(depth + 1)
 			sizes = sizes[:len(sizes)-1]
